@@ -298,7 +298,17 @@ def run(prop, tier):
         bad, _ = model_check_expect_violation("ThreadsMC", None, workers=8, cfg_text=base.replace("TDev = {}", 'TDev = {"%s"}' % d))
         if not bad:
             raise MachineryError("ThreadsMC with deviation %s satisfies every property: vacuous" % d)
-    rep.notes["model_deviations_rejected_by_tlc"] = ["NoLock", "LockOnlyAroundSend"]
+    # the implementation-shaped model: connect check/open under the lock, dropped transmissions and failing transports with a retry
+    ibase = open(os.path.join(SPEC, "ThreadsImplMC.cfg")).read()
+    for nt, k in ((3, 2),) + (((4, 2),) if tier != "quick" else ()):
+        res = model_check("ThreadsImplMC", None, workers=8, cfg_text=ibase.replace("NT = 3", "NT = %d" % nt).replace("K = 2", "K = %d" % k))
+        rep.add_mc(res, "ThreadsImplMC NT=%d K=%d" % (nt, k))
+    idevs = ["ConnectOutsideLock", "LockReleasedDuringBackoff", "LockWaitTimesOut", "CloseRecreatesLock"]
+    for d in idevs:
+        bad, _ = model_check_expect_violation("ThreadsImplMC", None, workers=8, cfg_text=ibase.replace("TDev = {}", 'TDev = {"%s"}' % d))
+        if not bad:
+            raise MachineryError("ThreadsImplMC with deviation %s satisfies every property: vacuous" % d)
+    rep.notes["model_deviations_rejected_by_tlc"] = ["NoLock", "LockOnlyAroundSend"] + idevs
     traces = []
     k = 0
     shapes = [(2, 2), (3, 2)] if tier == "quick" else [(2, 2), (2, 3), (3, 2), (4, 3)]
